@@ -81,15 +81,15 @@ Theorem C03_same_crs_sampled_within :
 Proof. exact sampled_within. Qed.
 Print Assumptions C03_same_crs_sampled_within.
 
-(** separated by more than the margin (padding below the image; padding + align - 1 above it,
-    because the aligned start may reach back into the image) -> source region empty, destination 0:0 *)
+(** separated by more than the padding margin (whatever the alignment: the source region is aligned only
+    when the un-aligned padded envelope meets the image) -> source region empty, destination 0:0 *)
 Theorem C03_same_crs_sampled_separated_empty :
   forall c ss ds A F ttol stol padding align r,
   reproject_linear c ss ds A F ttol stol padding align = Ok r -> paste_ok r = false ->
-  (0 <= fst ss)%Z -> (0 <= snd ss)%Z -> (0 <= pad_default padding)%Z -> align_ok (norm_align align) ->
+  (0 <= fst ss)%Z -> (0 <= snd ss)%Z -> (0 <= pad_default padding)%Z ->
   let pts := map (aff_pt A) (boundary_pts ((0%Z, fst ds), (0%Z, snd ds)) 2) in
-  axis_sep (xs_of pts) (snd ss) (pad_default padding) (norm_align align) \/
-  axis_sep (ys_of pts) (fst ss) (pad_default padding) (norm_align align) ->
+  axis_sep (xs_of pts) (snd ss) (pad_default padding) None \/
+  axis_sep (ys_of pts) (fst ss) (pad_default padding) None ->
   roi_empty (roi_src r) = true /\ roi_dst r = ((0, 0), (0, 0))%Z.
 Proof. exact sampled_disjoint. Qed.
 Print Assumptions C03_same_crs_sampled_separated_empty.
@@ -228,10 +228,10 @@ Print Assumptions C03_cross_crs_within.
 Theorem C03_cross_crs_separated_empty :
   forall c back fwd scale_at ss ds padding align r,
   reproject_nonlinear c back fwd scale_at ss ds padding align = Ok r ->
-  (0 <= fst ss)%Z -> (0 <= snd ss)%Z -> (0 <= pad_default padding)%Z -> align_ok (norm_align align) ->
+  (0 <= fst ss)%Z -> (0 <= snd ss)%Z -> (0 <= pad_default padding)%Z ->
   let pts := map back (boundary_pts ((0%Z, fst ds), (0%Z, snd ds)) 5) in
-  axis_sep (xs_of pts) (snd ss) (pad_default padding) (norm_align align) \/
-  axis_sep (ys_of pts) (fst ss) (pad_default padding) (norm_align align) ->
+  axis_sep (xs_of pts) (snd ss) (pad_default padding) None \/
+  axis_sep (ys_of pts) (fst ss) (pad_default padding) None ->
   roi_empty (roi_src r) = true /\ roi_dst r = ((0, 0), (0, 0))%Z /\ read_shrink r = 1%Z /\ scale r = 0.
 Proof. exact nonlinear_separated. Qed.
 Print Assumptions C03_cross_crs_separated_empty.
